@@ -504,6 +504,19 @@ func (p *Pair) Deliver(dir int, wire []byte, sizes []int) {
 // EOF makes the receiver of direction dir see io.EOF after the queued data.
 func (p *Pair) EOF(dir int) { p.Conn[receiver(dir)].FeedEOF() }
 
+// Fail makes the receiver of direction dir see a network error after the queued data:
+// cls = eof | timeout | other (a connection reset).
+func (p *Pair) Fail(dir int, cls string) {
+	switch cls {
+	case "timeout":
+		p.Conn[receiver(dir)].FeedErr(vlib.TimeoutError{})
+	case "other":
+		p.Conn[receiver(dir)].FeedErr(&net.OpError{Op: "read", Net: "tcp", Err: errors.New("connection reset by peer")})
+	default:
+		p.Conn[receiver(dir)].FeedEOF()
+	}
+}
+
 // Reader returns the reader of direction dir.
 func (p *Pair) Reader(dir int) *Reader { return p.Rd[dir] }
 
